@@ -36,6 +36,9 @@ static std::vector<Plan> PLANS = {
     {"sv-chain3", "class S : StateVariable { predicate A() { duration >= 1.0; } } S s = new S(); goal a = new s.A(); goal b = new s.A(); goal c = new s.A(); a.start >= 1.0; a.end <= b.start; b.end <= c.start;", 10},
     // two atoms on different state variables tied together by equalities
     {"sv-tied", "class S : StateVariable { predicate A() { duration >= 2.0; } } S s1 = new S(); S s2 = new S(); goal a = new s1.A(); goal b = new s2.A(); a.start >= 1.0; b.start == a.start; b.end == a.end;", 9},
+    // strict temporal inequalities: the planned times carry an infinitesimal part (3 + eps), which the dispatcher has to honour
+    {"strict-precedence", "predicate M() : Interval { duration >= 3.0; } predicate G() : Interval { duration >= 2.0; } goal m = new M(); goal g = new G(); g.start > m.end;", 9},
+    {"strict-impulse", "predicate M() : Interval { duration >= 2.0; } predicate B() : Impulse { } goal m = new M(); goal b = new B(); b.at > m.start + 1.0; m.start >= 1.0;", 8},
     // an agent with an impulse followed by an interval
     {"agent", "class G : Agent { predicate N() : Impulse { } predicate W() : Interval { duration >= 1.0; } } G ag = new G(); goal n = new ag.N(); goal w = new ag.W(); n.at >= 2.0; w.start >= n.at;", 9},
 };
